@@ -142,8 +142,10 @@ def run_file(item):
                     base[(raw_ts, ch.path)] = rr[1]
         # raw vs non-raw representation
         for (raw_ts, p), (sc, un) in base.items():
-            if raw_ts and sc is not None and as_us(sc) != base[(False, p)][0] and base[(False, p)][0][1]:
-                res['violations'].append(_viol(name, hist, seed, 'raw_timestamps', p, base[(False, p)][0], as_us(sc), 'raw-vs-datetime64'))
+            if raw_ts and sc is not None and base[(False, p)][0][1]:
+                conv = H.guarded(as_us, sc)
+                if conv[0] != 'ok' or conv[1] != base[(False, p)][0]:
+                    res['violations'].append(_viol(name, hist, seed, 'raw_timestamps', p, base[(False, p)][0], conv, 'raw-vs-datetime64'))
         paths = sorted(set(p for _r, p in base))
         if any(base[(False, p)][1][2] for p in paths):
             res['counters']['nontrivial'] += 1
